@@ -1,6 +1,7 @@
 package simos
 
 import (
+	"time"
 	"errors"
 	"fmt"
 	"io"
@@ -455,6 +456,11 @@ func Rename(oldname, newname string) error {
 		return nil
 	}
 	if old, ok := w.Files[np]; ok {
+		if old == ino {
+			// two names of one file: rename(2) does nothing and succeeds
+			w.logOp("rename", op, 0, 0, "same file")
+			return nil
+		}
 		old.Nlink--
 	}
 	w.Files[np] = ino
@@ -468,6 +474,61 @@ func Rename(oldname, newname string) error {
 		w.P.Trace[n-1].To = np
 	}
 	w.logOp("rename", op, 0, 0, "-> "+w.logName(np))
+	return nil
+}
+
+// Link gives the file oldname a second name. It fails when newname exists.
+func Link(oldname, newname string) error {
+	w := W
+	op, np := clean(oldname), clean(newname)
+	if err := w.simple("link", op); err != nil {
+		return &realos.LinkError{Op: "link", Old: oldname, New: newname, Err: err}
+	}
+	ino, ok := w.Files[op]
+	if !ok {
+		w.logOp("link", op, 0, 0, "enoent")
+		return &realos.LinkError{Op: "link", Old: oldname, New: newname, Err: syscall.ENOENT}
+	}
+	if _, exists := w.Files[np]; exists || w.Dirs[np] {
+		w.logOp("link", op, 0, 0, "eexist")
+		return &realos.LinkError{Op: "link", Old: oldname, New: newname, Err: syscall.EEXIST}
+	}
+	if e := w.checkParents(np); e != 0 {
+		w.logOp("link", op, 0, 0, e.Error())
+		return &realos.LinkError{Op: "link", Old: oldname, New: newname, Err: e}
+	}
+	ino.Nlink++
+	w.Files[np] = ino
+	// what this process wrote to the file is from now on (also) what it
+	// wrote to the new name: the name a program links a finished file to is
+	// the one that stays
+	for _, t := range w.P.touched {
+		if t.ino == ino {
+			t.path = np
+		}
+	}
+	if n := len(w.P.Trace); n > 0 {
+		w.P.Trace[n-1].To = np
+	}
+	w.logOp("link", op, 0, 0, "-> "+w.logName(np))
+	return nil
+}
+
+// Symlink and Readlink: the simulated file system has no symbolic links
+// (gts makes none); a program that tries is told so, as on a file system
+// without them.
+func Symlink(oldname, newname string) error {
+	return &realos.LinkError{Op: "symlink", Old: oldname, New: newname, Err: syscall.EPERM}
+}
+
+// Readlink: see Symlink.
+func Readlink(name string) (string, error) { return "", perr("readlink", name, syscall.EINVAL) }
+
+// Chtimes changes nothing the simulation looks at.
+func Chtimes(name string, atime, mtime time.Time) error {
+	if _, err := Stat(name); err != nil {
+		return perr("chtimes", name, syscall.ENOENT)
+	}
 	return nil
 }
 
